@@ -147,7 +147,7 @@ def _resp_result(r):
             U8(r.leid), r.retry)
 
 
-def feed_resp(method, chunks, closed):
+def feed_resp(method, chunks, closed, close_first=False):
     """drive clienting.Respondent the way Client.service does: parse after every read; the far side closing is seen
     one service cycle after the last bytes (Client.service calls respondent.close() when connector.cutoff)."""
     from hio.core.http import clienting
@@ -182,8 +182,10 @@ def feed_resp(method, chunks, closed):
                 r.reinit(method=method)     # Client.transmit(method=...) for the next request of the same kind
                 r.makeParser()
 
-    for c in chunks:
+    for i, c in enumerate(chunks):
         msg.extend(c)
+        if close_first and i == len(chunks) - 1:
+            r.close()         # an owner that signals the close BEFORE it parses the last read
         drive()
     if closed and state["live"]:
         r.close()
@@ -331,7 +333,7 @@ class FakeSock:
 
     def __init__(self, frags, close_after, ca, ha):
         self.frags = list(frags)
-        self.close_after = close_after
+        self.close_after = close_after     # True: EOF one service pass after the last read; "same": in the same receive pass
         self.ca = ca
         self.ha = ha
         self.sent = bytearray()
@@ -367,7 +369,10 @@ class FakeSock:
             while self.frags and not self.frags[0]:
                 self.frags.pop(0)     # an empty read would mean "closed"
             if self.frags:
-                return bytes(self.frags.pop(0))
+                data = bytes(self.frags.pop(0))
+                if not self.frags and self.close_after == "same":
+                    self.gate = True          # the end of stream is picked up by the same serviceReceives pass
+                return data
             if self.close_after:
                 return b''
         raise BlockingIOError(errno.EAGAIN, "again")
@@ -499,7 +504,7 @@ def scripted_resolve(host):
     return "127.0.0.9"
 
 
-def run_client(frags, close_after, scheme="http", redirectable=True, cycles=None, reconnect=False):
+def run_client(frags, close_after, scheme="http", redirectable=True, cycles=None, reconnect=False, bodies=False):
     """Client with a scripted connector: one GET is transmitted, the scripted response bytes come back; a followed
     redirect is re-sent on a scripted connector too; with `reconnect` the connector is reconnectable and virtual time
     advances one second per service pass, so a closed event stream is re-requested (Last-Event-ID).
@@ -550,7 +555,10 @@ def run_client(frags, close_after, scheme="http", redirectable=True, cycles=None
                 esc = type(ex).__name__
                 break
             tymist.tick()
-        resps = [(r['status'], bool(r['errored'])) for r in cli.responses]
+        if bodies:
+            resps = [(r['status'], bool(r['errored']), bytes(r['body'])) for r in cli.responses]
+        else:
+            resps = [(r['status'], bool(r['errored'])) for r in cli.responses]
         nev = len(cli.events)
     finally:
         clienting.tcp.Client, clienting.tcp.ClientTls, clienting.coring.normalizeHost = saved
@@ -983,7 +991,7 @@ def gen_location(rng):
     host = rng.choice(["127.0.0.1", "127.0.0.1", "127.0.0.1", "127.0.0.2", "localhost", "other.example", "gone.invalid", "nxdomain.example", "a..b", ".a", "a.", "x" * 64 + ".com",
                        "\xe9.example", "xn--", "[::1]", "[::1", "::1]", "[zz]", "[]", "", "h_st", "h st", "1.2.3.4.5", "%41", "a" * 300])
     port = rng.choice(["", "", ":8080", ":8080", ":80", ":0", ":65535", ":65536", ":99999", ":ab", ":-1", ":", ": 80", ":8080x", ":\xb2"])
-    path = rng.choice(["/n", "/n", "", "/", "//other.example/x", "//127.0.0.1:81/x", "//127.0.0.1:99999/x", "//127.0.0.1:8080/x", "//[::1/x", "//a..b/x",
+    path = rng.choice(["/n", "/n", "", "/", "/items/{id}", "/{0}/{}", "/%s%(x)s", "//other.example/x", "//127.0.0.1:81/x", "//127.0.0.1:99999/x", "//127.0.0.1:8080/x", "//[::1/x", "//a..b/x",
                        "/a b", "/%zz", "/%5B", "/\xe9", "/a;b", "/" + "p" * 300, "//", "///x", "/x//y"])
     query = rng.choice(["", "", "?a=1", "?a=1&b", "?a=%zz", "?", "?a;b", "?\xe9=1", "?x=//y"])
     frag = rng.choice(["", "", "#f", "#"])
@@ -1006,6 +1014,11 @@ def mutate_bytes(rng, data, k=None):
     """near-valid mutations: the corner a malformed-input bug needs"""
     if rng.random() < 0.35:
         data = damage_headers(rng, bytes(data))
+    if rng.random() < 0.25:      # format metacharacters inside client-controlled text that ends up in error messages
+        meta = rng.choice([b"{id}", b"{0}", b"{}", b"{", b"}", b"{0!r:>{1}}", b"%s", b"%(x)s", b"%", b"\\", b"{{", b"%%d"])
+        pos = [m.start() for m in re.finditer(rb"[/:;= ]", bytes(data))] or [0]
+        i = rng.choice(pos) + 1
+        data = bytes(data[:i]) + meta + bytes(data[i:])
     data = bytearray(data)
     for _ in range(k or rng.randrange(1, 4)):
         op = rng.randrange(9)
@@ -1059,6 +1072,8 @@ def mutate_bytes(rng, data, k=None):
 #                                                     decoded by clienting.Respondent
 #   ("srv",  kind, ((data, cuts, close), ...))        Server (wsgi) / BareServer service loop, one entry per connection
 #   ("cli",  data, cuts, close, scheme)               Client service loop on response bytes (redirects are re-sent)
+#   ("clid", data, cuts, eof_same)                    Client.service under a delivery schedule: the reads, and the end of stream
+#                                                     either one pass after the last read or in the same receive pass
 #   ("clir", data, cuts)                              the same with a reconnectable connector: the far side closes, virtual
 #                                                     time passes, the client reconnects and re-requests (Last-Event-ID)
 
@@ -1128,7 +1143,7 @@ def case_data(case):
         return sser_wire(case[1], case[2], case[3])
     if k == "enc":
         return enc_wire(case[1], case[2], case[3], case[4], case[6] if len(case) > 6 else ())[0]
-    if k in ("cli", "clir"):
+    if k in ("cli", "clir", "clid"):
         return case[1]
     if k == "pack":
         from hio.core.http import httping
@@ -1139,7 +1154,7 @@ def case_data(case):
 
 
 def case_cuts(case):
-    ix = {"req": 2, "resp": 3, "sse": 2, "sses": 2, "sser": 4, "chunks": 2, "enc": 5, "cli": 2, "clir": 2, "pack": 2, "wsgi": 2}.get(case[0])
+    ix = {"req": 2, "resp": 3, "sse": 2, "sses": 2, "sser": 4, "chunks": 2, "enc": 5, "cli": 2, "clir": 2, "clid": 2, "pack": 2, "wsgi": 2}.get(case[0])
     return case[ix] if ix is not None else None
 
 
@@ -1156,6 +1171,8 @@ def run_case(case):
     if k == "resp":
         fr = frags_of(case)
         m = "HEAD" if case[1] else "GET"
+        if case[5] == "cf":      # close signalled before the parse of the last read, vs the usual order on the whole
+            return (feed_resp(m, fr, True, close_first=True), feed_resp(m, [case[2]], True))
         return (feed_resp(m, fr, case[4]), feed_resp(m, [case[2]], case[4]))
     if k == "sser":
         fr = frags_of(case)
@@ -1192,6 +1209,9 @@ def run_case(case):
         return (run_client(split_at(case[1], case[2]), case[3], scheme=case[4]),)
     if k == "clir":
         return (run_client(split_at(case[1], case[2]), True, reconnect=True),)
+    if k == "clid":     # any delivery schedule incl. the timing of the end of stream vs the plain one
+        return (run_client(split_at(case[1], case[2]), "same" if case[3] else True, redirectable=False, bodies=True),
+                run_client([case[1]], True, redirectable=False, bodies=True))
     raise ValueError(f"bad case kind {k!r}")
 
 
@@ -1201,6 +1221,8 @@ def request_of(case):
     if k == "req":
         return ("req", frags_of(case), bad_urls(case[1]))
     if k == "resp":
+        if case[5] == "cf":
+            return ("respcf", bool(case[1]), frags_of(case))
         return ("resp", bool(case[1]), frags_of(case), bool(case[4]))
     if k == "sser":
         return ("resp", False, frags_of(case), case[1] == "close")
@@ -1225,6 +1247,8 @@ def request_of(case):
     if k == "cli":
         return ("cli", split_at(case[1], case[2]), bool(case[3]))
     if k == "clir":
+        return ("cli", split_at(case[1], case[2]), True)
+    if k == "clid":
         return ("cli", split_at(case[1], case[2]), True)
     raise ValueError(f"bad case kind {k!r}")
 
@@ -1252,7 +1276,7 @@ def view_of(case, obs):
                     out.append((n, o))
             return (multi[0], out)
         return (multi[0],)
-    if k in ("cli", "clir"):
+    if k in ("cli", "clir", "clid"):
         return (obs[0][0],)
     if k == "sses":
         return ("waiting", "waiting") if len(case[1]) < 3 else obs
@@ -1274,7 +1298,7 @@ def shrink_case(case):
 
 def _shrink_case(case):
     k = case[0]
-    idx = {"req": (1, 2), "resp": (2, 3), "sse": (1, 2), "sses": (1, 2), "chunks": (1, 2), "cli": (1, 2), "clir": (1, 2)}.get(k)
+    idx = {"req": (1, 2), "resp": (2, 3), "sse": (1, 2), "sses": (1, 2), "chunks": (1, 2), "cli": (1, 2), "clir": (1, 2), "clid": (1, 2)}.get(k)
     if idx:
         di, ci = idx
         data, cuts = case[di], tuple(case[ci])
@@ -1283,7 +1307,7 @@ def _shrink_case(case):
             lst = list(case)
             lst[di] = d
             lst[ci] = c
-            if k in ("req", "resp"):
+            if k in ("req", "resp") and lst[-1] != "cf":
                 lst[-1] = None     # the intent no longer applies
             return tuple(lst)
         if cuts:
@@ -1434,6 +1458,20 @@ def boundary_sizes(limit=300000):
                 if 0 <= v <= limit:
                     out.add(v)
     return sorted(out)
+
+
+def boundary_line_sizes():
+    """line lengths at and around every size constant of the module that can bound a line (read from the module)"""
+    out = set()
+    for _, c in size_constants():
+        if c <= 1 << 17:
+            out.update((c - 1, c, c + 1))
+    return sorted(out)
+
+
+def max_line_size():
+    from hio.core.http import httping
+    return int(httping.MAX_LINE_SIZE)
 
 
 def piece_of(rng, n):
